@@ -306,6 +306,7 @@ pub struct Gen {
     pub prop: String,
     pub sw: Swarm,
     pub name_ctr: u32,
+    pub thorough: bool,
 }
 
 impl Gen {
@@ -314,6 +315,7 @@ impl Gen {
             prop: prop.to_string(),
             sw,
             name_ctr: 0,
+            thorough: false,
         }
     }
 
@@ -833,6 +835,44 @@ impl Gen {
             }
         }
         evs.push(Ev::Audit);
+        let thorough = self.thorough;
+        match self.prop.as_str() {
+            "C07" | "C12" if !w.slots.is_empty() => {
+                // enumerated sub-space: quick = strided on one object, thorough = exhaustive
+                let pct = if thorough { 12 } else { 6 };
+                if rng.pct(pct) {
+                    let slot = rng.below(w.slots.len());
+                    let mode = match rng.below(3) {
+                        0 => SweepMode::BitFlips,
+                        1 => SweepMode::Truncations,
+                        _ => SweepMode::ByteOverwrites,
+                    };
+                    let big = w.slots[slot].orig.len() > 400;
+                    let stride = if thorough { 1 } else if matches!(mode, SweepMode::BitFlips) { if big { 61 } else { 7 } } else if big { 13 } else { 1 };
+                    evs.push(Ev::SweepSlot { slot, mode, stride });
+                }
+            }
+            "C08" => {
+                if rng.pct(if thorough { 30 } else { 10 }) {
+                    if let Some(u) = self.user_with_key(rng, w) {
+                        evs.push(Ev::SweepUsk { user: u });
+                    }
+                }
+            }
+            "C14" => {
+                if rng.pct(if thorough { 20 } else { 3 }) {
+                    if let Ev::Hostile { target, parser, .. } = self.hostile(rng, w) {
+                        // bound the work of one sweep (parses): exhaustive for objects up to the
+                        // cap, strided above it
+                        let len = crate::run::hostile_bytes(w, &target, &HostileMut::None, &parser).map(|b| b.len()).unwrap_or(0);
+                        let cap = if thorough { 60_000 } else { 3_000 };
+                        let stride = (len * 4).div_ceil(cap).max(1);
+                        evs.push(Ev::SweepHostile { target, parser, stride });
+                    }
+                }
+            }
+            _ => {}
+        }
         evs
     }
 }
